@@ -78,6 +78,9 @@ JunkChar(c)  == \/ c \in {35, 36, 37, 44, 46, 47}                   \* # $ % , .
 JunkStr(s)   == \/ s = <<>>
                 \/ \A i \in 1..Len(s) : ~IsDigit(s[i])
                 \/ \E i \in 1..Len(s) : JunkChar(s[i])
+\* the accepted string forms are "decimal and 0x strings": a literal in another base (0b.., 0o..,
+\* upper-case 0X..) is malformed.  Leading zeros are still decimal digits ("007" is 7).
+OtherBase(s) == Len(s) >= 2 /\ s[1] = 48 /\ s[2] \in {98, 66, 111, 79, 88}      \* 0b 0B 0o 0O 0X
 InRange(v)   == v >= 0 /\ v < 65536                                  \* 0 <= n < 2^16
 
 IterStatus(it) ==
@@ -86,7 +89,7 @@ IterStatus(it) ==
     ELSE IF CleanDec(it.s) THEN (IF InRange(DecVal(it.s)) THEN "ok" ELSE "bad")
     ELSE IF CleanNeg(it.s) THEN (IF DecVal(Tail(it.s)) = 0 THEN "free" ELSE "bad")
     ELSE IF CleanHexI(it.s) THEN (IF InRange(HexNum(SubSeq(it.s, 3, Len(it.s)))) THEN "ok" ELSE "bad")
-    ELSE IF JunkStr(it.s) THEN "bad" ELSE "free"
+    ELSE IF OtherBase(it.s) \/ JunkStr(it.s) THEN "bad" ELSE "free"
 IterValue(it) ==
     IF it.form = "int" THEN it.val
     ELSE IF CleanDec(it.s) THEN DecVal(it.s) ELSE HexNum(SubSeq(it.s, 3, Len(it.s)))
